@@ -222,6 +222,28 @@ def etype_key(et):
     return ['goto', getattr(et, 'state', repr(et))]
 
 
+def addon_parts(edzed, spec, kw):
+    """
+    Optionally combine the generic FSM class with the AddonAsync add-on.
+
+    (Only generic classes, created in one step: FSM collects the enter_/exit_/cond_ methods
+    from the class body alone, so deriving from Timer/InputExp or from a finished FSM class
+    would silently drop their callbacks - a limitation of the library outside this property.)
+    """
+    addon = spec.get('addon')
+    if not addon:
+        return (), {}
+    ns = {}
+    if addon in ('stop_async', 'stop_async_disabled'):
+        async def stop_async(self):
+            await asyncio.sleep(0.05)
+        ns['stop_async'] = stop_async
+        kw['stop_timeout'] = 0 if addon == 'stop_async_disabled' else 2.0
+    # addon == 'plain': the add-on without any asynchronous clean-up (e.g. the class only
+    # wants _create_monitored_task) - stop() must still be called and cancel the timer
+    return (edzed.AddonAsync,), ns
+
+
 def build_block(edzed, spec, hist, probes):
     kind = spec['kind']
     kw = {}
@@ -260,7 +282,9 @@ def build_block(edzed, spec, hist, probes):
             n = calls[ev] = calls.get(ev, 0) + 1
             return {'never': False, 'alt': n % 2 == 1}.get(mode, True)
         ns[f"cond_{ev}"] = cond
-    cls = type('GenTimed', (edzed.FSM,), ns)
+    bases, extra = addon_parts(edzed, spec, kw)
+    ns.update(extra)
+    cls = type('GenTimed', bases + (edzed.FSM,), ns)
     for st, d in spec.get('inst', {}).items():
         kw[f"t_{st}"] = real_dur(d)
     if spec.get('initdef') is not None:
@@ -414,7 +438,8 @@ def run_case(case, ctx):
 
     try:
         out = harness.run_sim(build, drive, setup=setup,
-                              drain=30.0 if case.get('failed_start') else 86400.0)
+                              drain=30.0 if case.get('failed_start') else 86400.0,
+                              drain_budget=2000)
     finally:
         vclock.uninstall()
     loop = out['loop']
@@ -423,6 +448,7 @@ def run_case(case, ctx):
     state['error'] = out['sim'].circuit.error
     state['exc'] = out['exc']
     state['stop_vt'] = loop.after_main['vt']
+    state['drain_exc'] = getattr(loop, 'drain_exc', None)
     state['live_after_stop'] = [(h._when,) for h in loop.after_main['timers']]
     fsm = out['objs']['fsm']
     state['own_after_stop'] = [
@@ -447,7 +473,7 @@ def judge(case, hist, state, ctx):
             raise core.Violation(
                 'timer-pending-after-stop',
                 f"{where}: start-up failed, an event of the clean-up reached the never started "
-                f"block; timers left after the end: {state['own_after_stop']} {state['live_after_stop']}")
+                f"block; timers left after the end: {state['own_after_stop'][:5]} {state['live_after_stop'][:5]}")
         return True
     model = TModel(spec)
     E = hist.entries
@@ -637,7 +663,10 @@ def judge(case, hist, state, ctx):
             nontrivial = True
     if state['own_after_stop'] or state['live_after_stop']:
         raise core.Violation('timer-pending-after-stop',
-                             f"{where}: timers after the stop: {state['own_after_stop']} {state['live_after_stop']}")
+                             f"{where}: timers after the stop: {state['own_after_stop'][:5]} {state['live_after_stop'][:5]}")
+    if state.get('drain_exc') is not None:
+        raise core.Violation('activity-after-stop',
+                             f"{where}: after the end of the simulation: {state['drain_exc']!r}")
     if spec['kind'] == 'timer':
         ctx.count('timer_block_cases')
     elif spec['kind'] == 'inputexp':
@@ -791,6 +820,8 @@ def gen(ctx):
             spec, stims = random_inputexp(rng)
         case = {'spec': spec, 'stims': stims,
                 'tail': rng.choice(['after', 'pending', 'pending', 'long'])}
+        if spec['kind'] == 'generic' and rng.random() < 0.25:
+            spec['addon'] = rng.choice(['plain', 'stop_async', 'stop_async_disabled'])
         if rng.random() < 0.04:
             ev = {'generic': 'go1', 'timer': 'start', 'inputexp': 'put'}[spec['kind']]
             case['failed_start'] = [ev, {'duration': rng.choice([0.5, 3.0, '0m2s']), 'value': 'x'}]
